@@ -35,7 +35,7 @@ ASSUMPTIONS = [
     "len(chunk) <= chunksize and complete consecutive coverage of the yielded chunks are checked",
     "Parquet: the row-group cache size is not observed, only that each group is read once per pass in order",
 ]
-PROBES = ["parquet_groups_aligned_with_chunks", "two_passes", "tail_chunk_shorter", "exact_multiple", "single_chunk", "parquet_group_straddles_chunk", "parallel_mode"]
+PROBES = ["abandoned_preview_pass", "parquet_groups_aligned_with_chunks", "two_passes", "tail_chunk_shorter", "exact_multiple", "single_chunk", "parquet_group_straddles_chunk", "parallel_mode"]
 REAL_VS_STUB = dict(
     real="yaw readers, DataChunk, h5py, pyarrow, astropy.io.fits, pandas",
     stub="multiprocessing (sim.fakemp); trace taps: TracedFrame, h5py.Dataset.__getitem__, ParquetFile.read_row_group, DataChunkReader.__next__ wrappers",
@@ -56,6 +56,8 @@ def gen_case(prng: Prng, tier: str) -> dict:
     if mode == "create":
         n = max(n, 10 * k + 5)
     extra = {}
+    if source in ("traced", "hdf5") and mode != "create" and prng.chance(1, 5):
+        extra["preview_chunks"] = prng.randint(1, 3)  # abandoned partial pass before the creation
     if source == "parquet" and chunksize is not None and prng.chance(1, 2):
         extra["pq_rowgroup"] = prng.choice([chunksize, max(1, chunksize // 2), 2 * chunksize, 3 * chunksize])
     return dict(
@@ -165,6 +167,22 @@ def check_trace(case: dict, trace: list) -> tuple[dict | None, str | None, dict]
     cs = cs_req  # the file readers' min(n, chunksize) is overridden by DataReader.__init__
     nchunks = -(-n // cs)
     passes_expected = 2 if case["patch"]["mode"] == "create" else 1
+    preview = min(int(case.get("preview_chunks") or 0), nchunks)
+    if preview:
+        probes["abandoned_preview_pass"] = 1
+        # the abandoned pass: its chunks come first in the trace and are checked like a prefix of a pass
+        pchunks = [e for e in trace if e[1] == "chunk"][:preview]
+        if [e[2] for e in pchunks] != [min(cs, n - i * cs) for i in range(preview)]:
+            return _sig(case, "trace_violation", what="preview_pass"), f"preview chunks {[e[2] for e in pchunks]}", probes
+        # drop the preview part of the trace: `preview` chunk events and the source requests before the last of them
+        kept, seen = [], 0
+        for e in trace:
+            if seen < preview:
+                if e[1] == "chunk":
+                    seen += 1
+                continue
+            kept.append(e)
+        trace = kept
     if passes_expected == 2:
         probes["two_passes"] = 1
     if n > cs and n % cs:
